@@ -331,7 +331,24 @@ impl IceTransportRunner {
                                 rt_handle.as_ref(),
                                 tracing::Span::current(),
                                 async move {
-                                    perform_connectivity_checks_async(inner).await;
+                                    // The checks run detached from the runner: end them when the
+                                    // transport is stopped instead of letting them (and the socket
+                                    // handles they hold) live on for up to the STUN + nomination
+                                    // timeouts.
+                                    let mut state_rx = inner.state.subscribe();
+                                    tokio::select! {
+                                        _ = perform_connectivity_checks_async(inner) => {}
+                                        _ = async {
+                                            loop {
+                                                if *state_rx.borrow_and_update() == IceTransportState::Closed {
+                                                    break;
+                                                }
+                                                if state_rx.changed().await.is_err() {
+                                                    break;
+                                                }
+                                            }
+                                        } => {}
+                                    }
                                 },
                             );
                         }
